@@ -3,9 +3,10 @@ import os
 import random
 import shutil
 import tempfile
+import zlib
 
 from engine import gen_states, pool_map
-from readers import parse_cigar, run_cli, split_tag, write_text, workdir
+from readers import parse_cigar, run_cli, split_tag, write_text, workdir, lines_of
 
 SMALL = {"s1": "ACG", "s2": "TTA", "s3": "GC"}
 SMALL_LINKS = [("s1", "+", "s2", "+"), ("s2", "+", "s3", "+"), ("s1", "+", "s3", "-"), ("s2", "+", "s2", "-")]
@@ -70,6 +71,22 @@ def run_batch(job):
                 opt = ["tp:A:P", f"cg:Z:{cg}", "NM:i:2"] if k % 2 else [f"cg:Z:{cg}", "zd:Z:x1"]
                 lines.append("\t".join(cols + opt))
         write_text(gaf, "\n".join(lines) + "\n")
+        if zlib.crc32(("decoy" + str(bid)).encode()) % 3 == 0 and recs:
+            # an earlier call in the same process on ANOTHER graph stored under the same file name (an earlier version of it):
+            # nothing of it may survive into the real call
+            real = open(gfa).read()
+            comp = {"A": "C", "C": "G", "G": "T", "T": "A"}
+            with open(gfa, "w") as f:
+                for n, sq in seq.items():
+                    sq2 = "".join(comp.get(c, c) for c in sq)
+                    f.write(f"S\t{n}\t{sq2}\tLN:i:{len(sq2)}\n")
+                for a, ao, b, bo in links:
+                    f.write(f"L\t{a}\t{ao}\t{b}\t{bo}\t0M\n")
+            dg = os.path.join(d, "decoy.gaf")
+            write_text(dg, lines[0] + "\n")
+            run_cli(["realign", dg, gfa, fa, "-o", os.path.join(d, "decoy_out.gaf"), "-c", "1"], timeout=120)
+            with open(gfa, "w") as f:
+                f.write(real)
         out = os.path.join(d, "o.gaf")
         res = run_cli(["realign", gaf, gfa, fa, "-o", out, "-c", str(cores)], timeout=600)
         import gc
@@ -77,7 +94,7 @@ def run_batch(job):
         gc.collect()
         olines = {}
         if os.path.exists(out):
-            for l in open(out).read().splitlines():
+            for l in lines_of(open(out).read()):
                 olines.setdefault(l.split("\t")[0], l)
         cases = []
         st = res["status"] if res["status"] == "ok" else res["status"] + ":" + res["exc"][:50]
